@@ -121,6 +121,26 @@ def width_accounting(rep: Report, prog: Program) -> None:
                    'every vertex placed in the order has its elimination degree counted in the reported width' if ok else
                    f"vertices enter `{O}` on a path that never updates `{W}` (" + ' -> '.join(cfg.describe(x).split(':', 1)[0] for x in (wit or [])[-4:]) + '): the width returned with the order can be smaller than the width of that order')
     rep.floor('C10-D4', n, 1)
+    # what is counted is the elimination degree: every running maximum of a `len(...)` in factorize.py takes the size of a
+    # neighbour set `graph[v]` (possibly under a name), never of a bag `neighbours | {v}` -- width = largest bag size - 1
+    from ..util import inline_temps
+    nd = 0
+    for f in prog.module(FZ).functions.values():
+        if f.is_lambda:
+            continue
+        for st in [x for x in own_nodes(f.node) if isinstance(x, ast.Assign) and isinstance(x.value, ast.Call) and callee_last(x.value) == 'max' and len(x.value.args) == 2]:
+            lens = [a for a in st.value.args if isinstance(a, ast.Call) and callee_last(a) == 'len' and len(a.args) == 1]
+            if len(lens) != 1:
+                continue
+            nd += 1
+            e = inline_temps(f.node, lens[0].args[0])
+            while isinstance(e, ast.Call) and callee_last(e) in ('set', 'frozenset', 'list', 'tuple', 'copy') and (e.args or isinstance(e.func, ast.Attribute)):
+                e = e.args[0] if e.args else e.func.value
+            ok = isinstance(e, ast.Subscript) and isinstance(e.value, ast.Name)
+            rep.ob(rule + ' degree', f.fq(), norm(st)[:80], f.loc(st), ok,
+                   f"the size of the neighbour set `{norm(e)}`" if ok else
+                   f"`{norm(lens[0])}` measures `{norm(e)[:60]}`, which is not a neighbour set graph[v]: a bag (neighbours plus the vertex) is one larger than the degree, so every width is overstated by one and an order that beats the incumbent by exactly one is rejected")
+    rep.floor('C10-D4 degree', nd, 2)
 
 
 def check_bags_linked(prog: Program, rep: Report) -> None:
